@@ -121,6 +121,163 @@ def coq_cross_check(res, sampled):
                        "log": log[-2000:]}, no_failing_input=True)
 
 
+# ----------------------------------------------------------------------------------------------
+# LSP stage: "hence diagnostics after incremental edits equal those of a server that opened the
+# final text directly" — ties text_document_did_change_notification (events applied in order,
+# then update_source) to the same plain-string reference.
+# ----------------------------------------------------------------------------------------------
+BASE_TEXT = ("entity e is\nend entity;\n\narchitecture a of e is\n  signal s : bit;\nbegin\n"
+             "  s <= '1';\nend architecture;\n")
+SNIPPETS = ["x", " ", "\n", ";", "\u00e9", "\U0001F600", "--c\n", "signal t : bit;\n", "\r\n", "\r", "(", "end", "\t", ""]
+
+
+class PyRng:
+    def __init__(self, s):
+        self.s = (s * 0x9E3779B97F4A7C15 + 0x1234567) & 0xFFFFFFFFFFFFFFFF
+
+    def next(self):
+        self.s = (self.s + 0x9E3779B97F4A7C15) & 0xFFFFFFFFFFFFFFFF
+        z = self.s
+        z = ((z ^ (z >> 30)) * 0xBF58476D1CE4E5B9) & 0xFFFFFFFFFFFFFFFF
+        z = ((z ^ (z >> 27)) * 0x94D049BB133111EB) & 0xFFFFFFFFFFFFFFFF
+        return z ^ (z >> 31)
+
+    def below(self, n):
+        return self.next() % n if n else 0
+
+
+def py_normalize(t):
+    return t.replace("\r\n", "\n").replace("\r", "\n")
+
+
+def py_len16(ch):
+    return 2 if ord(ch) >= 65536 else 1
+
+
+def py_offset(s, line, col):
+    i = 0
+    cur = 0
+    while cur < line:
+        j = s.find("\n", i)
+        if j < 0:
+            return len(s)
+        i = j + 1
+        cur += 1
+    acc = 0
+    while i < len(s) and s[i] != "\n" and acc < col:
+        acc += py_len16(s[i])
+        i += 1
+    return i
+
+
+def py_apply(s, change):
+    if "range" not in change:
+        return py_normalize(change["text"])
+    r = change["range"]
+    a = py_offset(s, r["start"]["line"], r["start"]["character"])
+    b = max(a, py_offset(s, r["end"]["line"], r["end"]["character"]))
+    return py_normalize(s[:a] + change["text"] + s[b:])
+
+
+def lsp_session(binpath, wsdir, k, sd):
+    """One incremental session + one fresh server on the final text. Returns (record, verdict)."""
+    from vlib import lsp
+    rng = PyRng(sd * 1000003 + k)
+    ws = os.path.join(wsdir, "s%d" % k)
+    os.makedirs(ws, exist_ok=True)
+    with open(os.path.join(ws, "vhdl_ls.toml"), "w") as f:
+        f.write("[libraries]\nlib.files = ['a.vhd']\n")
+    with open(os.path.join(ws, "a.vhd"), "w") as f:
+        f.write(BASE_TEXT)
+    uri = lsp.uri(os.path.join(ws, "a.vhd"))
+    text = py_normalize(BASE_TEXT)
+    batches = []
+    for _ in range(1 + rng.below(4)):
+        batch = []
+        for _ in range(1 + rng.below(3)):
+            if rng.below(10) == 0:
+                ch = {"text": BASE_TEXT if rng.below(2) else SNIPPETS[rng.below(len(SNIPPETS))] * 2}
+            else:
+                nl = text.count("\n") + 1
+
+                def pos():
+                    line = rng.below(nl + 2) if rng.below(8) else 1000000
+                    col = rng.below(12) if rng.below(8) else 4294967295
+                    return (line, col)
+                p, q = pos(), pos()
+                if q < p:
+                    p, q = q, p
+                if rng.below(3) == 0:
+                    q = p
+                ch = {"range": {"start": {"line": p[0], "character": p[1]}, "end": {"line": q[0], "character": q[1]}},
+                      "text": SNIPPETS[rng.below(len(SNIPPETS))]}
+            text = py_apply(text, ch)
+            batch.append(ch)
+        batches.append(batch)
+    rec = {"kind": "lsp-session", "session": k, "seed": sd, "batches": batches, "final_text": text}
+    ls = lsp.LS(binpath, ws)
+    try:
+        ls.initialize()
+        ls.notify("textDocument/didOpen", {"textDocument": {"uri": uri, "languageId": "vhdl", "version": 0, "text": BASE_TEXT}})
+        view = lsp.publish_map(ls.sync())
+        ver = 0
+        for batch in batches:
+            ver += 1
+            ls.notify("textDocument/didChange", {"textDocument": {"uri": uri, "version": ver}, "contentChanges": batch})
+            lsp.publish_map(ls.sync(), view)
+        inc = lsp.canon_view(view).get(uri, [])
+        ls.shutdown()
+    except lsp.ServerDied as ex:
+        ls.kill()
+        return rec, "server died during incremental edits: %s" % str(ex)[:300]
+    ls2 = lsp.LS(binpath, ws)
+    try:
+        ls2.initialize()
+        ls2.notify("textDocument/didOpen", {"textDocument": {"uri": uri, "languageId": "vhdl", "version": 0, "text": text}})
+        v2 = lsp.publish_map(ls2.sync())
+        # the fresh server first analysed the file on disk; take the view after didOpen
+        fresh = lsp.canon_view(v2).get(uri, [])
+        ls2.shutdown()
+    except lsp.ServerDied as ex:
+        ls2.kill()
+        return rec, "fresh server died on the final text: %s" % str(ex)[:300]
+    rec["incremental"] = inc
+    rec["fresh"] = fresh
+    if inc != fresh:
+        return rec, "diagnostics after incremental edits differ from those of a server that opened the final text"
+    return rec, None
+
+
+def lsp_stage(res, n, only=None):
+    from concurrent.futures import ThreadPoolExecutor
+    ok, log, binpath = vhdl_ls_build()
+    if not ok:
+        res.violation("vhdl_ls build failed against the current /repo tree", {"kind": "build", "log": log[-3000:]},
+                      no_failing_input=True)
+        return
+    wsdir = os.path.join(rundir(PROP), "ws")
+    import shutil
+    shutil.rmtree(wsdir, ignore_errors=True)
+    os.makedirs(wsdir)
+    sd = seed()
+    ks = [only] if only is not None else list(range(n))
+    with ThreadPoolExecutor(max_workers=8) as ex:
+        results = list(ex.map(lambda k: lsp_session(binpath, wsdir, k, sd if only is None else only[1]) if only is None
+                              else lsp_session(binpath, wsdir, only[0], only[1]), ks))
+    nd = 0
+    for rec, verdict in results:
+        nontriv = any("range" in c and (c["range"]["end"]["line"] > 8 or c["range"]["end"]["character"] > 11 or "\n" in c["text"])
+                      for b in rec["batches"] for c in b)
+        res.count_case("lsp:" + json.dumps(rec["batches"], sort_keys=True), nontriv)
+        if rec.get("incremental"):
+            nd += 1
+        if verdict:
+            res.violation(verdict, rec)
+    res.add_sample({"lsp_session_batches": results[0][0]["batches"], "final_text": results[0][0]["final_text"]}, limit=8)
+    res.coverage["lsp_sessions"] = len(results)
+    res.coverage["lsp_sessions_with_diagnostics"] = nd
+
+
 def main(tier, replay=None):
     res = Result(PROP, tier, level="proof")
     d = rundir(PROP)
@@ -149,6 +306,10 @@ def main(tier, replay=None):
         return compare(res, tag, cases, impl, model, sample_every)
 
     sampled = []
+    if replay and json.load(open(replay)).get("kind") == "lsp-session":
+        rp = json.load(open(replay))
+        lsp_stage(res, 1, only=(rp["session"], rp["seed"]))
+        return res.finish()
     if replay:
         rp = json.load(open(replay))
         path = os.path.join(d, "replay.in")
@@ -161,6 +322,8 @@ def main(tier, replay=None):
         sampled += stream("exhaustive", "exhaustive4" if tier == "thorough" else "exhaustive3", 0, 3000)
         sampled += stream("random", "random", 1000000 if tier == "thorough" else 30000, 150)
     coq_cross_check(res, sampled[:400])
+    if not replay:
+        lsp_stage(res, 400 if tier == "thorough" else 48)
     res.coverage["exhaustive"] = False
     res.coverage["rule"] = ("corpus of minimised failures first; exhaustive single ranged changes over documents <= 3 chars "
                             "(thorough: 4) of {a, LF, CR, U+1F600}, replacements <= 2 (3) chars, all ordered position pairs "
